@@ -69,6 +69,15 @@ func TestC05(t *testing.T) {
 }
 
 func init() {
+	// C01 / C05: the volumes of a generated window listed page by page: per asset the rows of one listing must balance
+	// (every page comes from the same state of the ledger) and equal the fold
+	for _, id := range []string{"C01", "C05"} {
+		postRun[id] = func(rt *rapid.T, w *World, l *LState) {
+			for i := 0; i < 2; i++ {
+				w.windowedVolumesWalk(rt, l)
+			}
+		}
+	}
 	postRun["C08"] = func(rt *rapid.T, w *World, l *LState) {
 		// a dry run replayed by the retry path (its first attempt is the victim of a deadlock at a drawn statement)
 		// must still append nothing to the journal
